@@ -150,7 +150,7 @@ def check_paren_action(modname, funcdef):
                 operand.fields['parentheses'] = False
             else:
                 operand = SymObj({str}, 'operand', prov='param')     # a non-node value (e.g. a plain string)
-            ex.operand = operand
+            ex.path_state['operand'] = operand
             lp = SymObj(None, 'LPAREN', prov='param')
             rp = SymObj(None, 'RPAREN', prov='param')
             p = make_p(ex, 'LPAREN expr RPAREN', [lp, operand, rp])
@@ -161,19 +161,19 @@ def check_paren_action(modname, funcdef):
     def post_node(ex, o):
         if o.kind != 'return':
             return f'action raises {o.value.__name__}'
-        if o.value is not ex.operand:
+        if o.value is not o.state['operand']:
             return f'result is {o.value!r}, not the operand'
-        if ex.operand.fields.get('parentheses') is not True:
-            return f'operand.parentheses is {ex.operand.fields.get("parentheses")!r} after the action, expected True'
+        if o.state['operand'].fields.get('parentheses') is not True:
+            return f'operand.parentheses is {o.state['operand'].fields.get("parentheses")!r} after the action, expected True'
         for (obj, attr, old, new, kind) in o.writes:
-            if obj is ex.operand and attr != 'parentheses':
+            if obj is o.state['operand'] and attr != 'parentheses':
                 return f'action also writes operand.{attr}'
         return None
 
     def post_other(ex, o):
         if o.kind != 'return':
             return f'action raises {o.value.__name__} on a non-node operand'
-        if o.value is not ex.operand:
+        if o.value is not o.state['operand']:
             return 'result is not the operand'
         return None
     v1 = verify(modname, None, mk('node'), post_node, node=funcdef)
